@@ -143,6 +143,11 @@ func (c Cfg) BodyTableMap(t Table) []byte {
 			nb[i/8] |= 1 << uint(i%8)
 		}
 	}
+	if c.PadOnes {
+		for i := len(t.Cols); i < 8*len(nb); i++ {
+			nb[i/8] |= 1 << uint(i%8)
+		}
+	}
 	b = append(b, nb...)
 	b = append(b, t.Optional...)
 	return b
@@ -235,14 +240,37 @@ func (e RowsEvent) Presence() (before, after []bool) {
 	return
 }
 
-func bitmap(bits []bool) []byte {
+func bitmap(bits []bool) []byte { return bitmapPad(bits, false) }
+
+// bitmapPad builds a bitmap; with pad the unused bits of the last byte are 1.
+func bitmapPad(bits []bool, pad bool) []byte {
 	b := make([]byte, (len(bits)+7)/8)
 	for i, v := range bits {
 		if v {
 			b[i/8] |= 1 << uint(i%8)
 		}
 	}
+	if pad {
+		for i := len(bits); i < 8*len(b); i++ {
+			b[i/8] |= 1 << uint(i%8)
+		}
+	}
 	return b
+}
+
+// EncodeImagePad is EncodeImage with the padding bits of the NULL bitmap set.
+func EncodeImagePad(img Image, present []bool, pad bool) (nullBitmap, values []byte) {
+	nulls := []bool{}
+	for i, c := range img {
+		if !present[i] {
+			continue
+		}
+		nulls = append(nulls, c.Null)
+		if !c.Null {
+			values = append(values, c.Raw...)
+		}
+	}
+	return bitmapPad(nulls, pad), values
 }
 
 // EncodeImage returns the NULL bitmap and the concatenated values of the
@@ -272,19 +300,19 @@ func (c Cfg) BodyRows(e RowsEvent) []byte {
 	b = LenEnc(b, uint64(len(e.Table.Cols)))
 	pb, pa := e.Presence()
 	if e.Kind != RowWrite {
-		b = append(b, bitmap(pb)...)
+		b = append(b, bitmapPad(pb, c.PadOnes)...)
 	}
 	if e.Kind != RowDelete {
-		b = append(b, bitmap(pa)...)
+		b = append(b, bitmapPad(pa, c.PadOnes)...)
 	}
 	for _, r := range e.Rows {
 		if e.Kind != RowWrite {
-			nb, v := EncodeImage(r.Before, pb)
+			nb, v := EncodeImagePad(r.Before, pb, c.PadOnes)
 			b = append(b, nb...)
 			b = append(b, v...)
 		}
 		if e.Kind != RowDelete {
-			nb, v := EncodeImage(r.After, pa)
+			nb, v := EncodeImagePad(r.After, pa, c.PadOnes)
 			b = append(b, nb...)
 			b = append(b, v...)
 		}
